@@ -735,6 +735,10 @@ pub mod ss {
     }
     pub open spec fn no_failed(st: Seq<BuildState>) -> bool { forall|b: int| 0 <= b < st.len() ==> #[trigger] st[b] != BuildState::Failed }
     pub open spec fn budget_ok(o: Options) -> bool { match o.failures_left { Some(k) => k >= 1, None => true } }
+    /// C05 "-k budget": every failed command is charged to the budget the invocation started with
+    pub open spec fn budget_charged(o0: Options, o: Options, failed: int) -> bool {
+        match (o0.failures_left, o.failures_left) { (Some(k0), Some(k)) => k + failed == k0, (None, None) => true, _ => false }
+    }
     pub open spec fn opts_same(a: Options, b: Options) -> bool { a.adopt == b.adopt && a.parallelism == b.parallelism && a.explain == b.explain }
     /// every wanted step is Done (C05: the only state in which n2 may report success)
     pub open spec fn all_settled(st: Seq<BuildState>) -> bool {
